@@ -57,6 +57,10 @@ def cases_for(ctx):
                 sps = [k for k in range(len(t["e"])) if k == 0 or (t["e"][k - 1][0] < i1 and s * t["e"][k - 1][0] + o < i1)]
                 cases.append({"kind": "project", "f": t, "s": s, "o": o, "hasiv": 1, "iv": [i1, i1 + rng.randint(0, 6)], "shape": nc + 1, "sp": rng.choice(sps)})
             cases.append({"kind": "prune", "f": t, "pred": rng.choice(["evencoord", "bigval", "evenpos", "all"]), "shape": nc + 1})
+            if rng.random() < 0.5:
+                # pruning a fiber whose rank is declared uncompressed (positions are offsets into the active range)
+                cases.append({"kind": "prune", "f": t, "pred": rng.choice(["evencoord", "bigval", "evenpos", "evenpos", "all"]), "shape": nc + 1, "fmt": "U",
+                              "hasact": hasact, "act": act, "emb": rng.choice(["fiber", "tensor1"])})
     # loop bodies that update a delivered stand-in in place (later absent coordinates must still read the default), and traversals abandoned after a few yields
     # (reference variants insert exactly the VISITED coordinates)
     for c in list(cases):
